@@ -54,17 +54,7 @@ func init() {
 		}
 		if fn := x.Func(f, "Set", "IsSubset"); fn != nil {
 			b := fn.Body.List
-			// `if A { return true } else if B { return false }` and `if A { return true }; if B { return false }` are the
-			// same statement sequence (the first branch returns): read the second form as the first
-			if len(b) == 4 {
-				if g, ok := b[0].(*ast.IfStmt); ok && g.Else == nil && g.Init == nil && len(g.Body.List) == 1 {
-					if _, ret := g.Body.List[0].(*ast.ReturnStmt); ret {
-						if e, ok := b[1].(*ast.IfStmt); ok && e.Else == nil && e.Init == nil {
-							b = append([]ast.Stmt{&ast.IfStmt{If: g.If, Cond: g.Cond, Body: g.Body, Else: e}}, b[2:]...)
-						}
-					}
-				}
-			}
+			b = mergeElseIf(b) // `if A { return true }; if B { return false }` reads as `… else if B …`
 			if x.wantStmts("IsSubset", b, "*", "for item := range s { if !t.Has(item) { return false } }", "return true") {
 				g := b[0].(*ast.IfStmt)
 				cond("isSubsetEmpty", "IsSubset", g.Cond)
